@@ -1,6 +1,642 @@
 package main
 
-// runMx: mode mx (stub, filled in by its check).
-func runMx(script, out string) {
-	fatal("mode mx not implemented")
+import (
+	"bufio"
+	crand "crypto/rand"
+	"fmt"
+	"math/rand"
+	"net/http"
+	"os"
+	"runtime"
+	"strconv"
+	"strings"
+	"sync"
+	"time"
+
+	"github.com/rivo/sessions"
+)
+
+// Mode mx: schedules on the keyed mutex of mutexes.go (C13, C14) and
+// concurrent Starts on one session id (C13's second sentence, C04).
+//
+// Script (one directive per line, "//" comments):
+//
+//	mode lock|start            (default lock)
+//	procs <n>                  GOMAXPROCS (default 1)
+//	tuning <maxSize> <cleanup_ns> <stale_ns>
+//	seed <n>
+//	yield <permille>           extra runtime.Gosched() around every step
+//	mdelay <permille> <ns>     manager stalls inside the trace hook at acq/tok/rel: Gosched (ns=0) or a sleep of 1..ns
+//	mat <ev> <key> <nth> <ns>  the nth (0-based) manager event <ev> on <key> stalls for ns (0 = Gosched)
+//	watchdog <ns>              virtual instant at which every unfinished call is declared stuck
+//	g <id> <steps...>          lock mode: L<k> U<k> X<k> (spurious Unlock) P (Purge) S<ns> Y
+//	-- start mode only --
+//	cfg <name> <value>         as in mode sess (idExpiry, grace, maxCache, ...)
+//	reqs <n>                   concurrent requests presenting the same due id
+//	others <n>                 further sessions, one concurrent request each (other keys of the lock table)
+//	stagger <ns>               request i starts at i*ns after the common start
+//	storedelay <ns>            every store / random-source callback stalls: Gosched (0) or a sleep of ns
+//
+// Log: "<t> <event...>" in ONE global order (a mutex serialises the appends):
+//
+//	acq|tok|rel|purge <key> <locks>        manager events, from the add-only hook in mutexes.go
+//	call|ret L|U|X <g> <key>, call|ret P <g>
+//	key <n> <id>                           start mode: session ids are interned as numbers
+//	call S <r> <key> / ret S <r> <kind> <key of the returned session's id|-> / ev <r> <what> <key> / mint <r> <key>
+//
+// followed by "done <g>" | "stuck <g> <op> <key>" | "late <g> sleep", "size <n>", "end <t> wd=<0|1>".
+// Under the virtual clock the watchdog instant is reached only when every goroutine is blocked,
+// so "stuck" is a fact about the schedule, not a timeout guess.
+
+type mxStep struct {
+	op byte
+	n  int64
+}
+
+type mxMat struct {
+	ev  string
+	key int
+	nth int
+}
+
+type mxRun struct {
+	mu    sync.Mutex
+	lines []string
+
+	// interning of non-integer keys (start mode)
+	keyIDs map[string]int
+
+	// what each goroutine is doing right now (guarded by mu)
+	cur  map[int]string
+	done map[int]bool
+
+	// manager stalls
+	mdelayP  int
+	mdelayNs int64
+	mat      map[mxMat]int64
+	matSeen  map[string]int
+	mrng     *rand.Rand
+
+	yieldP int
+	seed   int64
+}
+
+func (r *mxRun) logf(format string, args ...interface{}) {
+	r.mu.Lock()
+	r.lines = append(r.lines, strconv.FormatInt(nowRel(), 10)+" "+fmt.Sprintf(format, args...))
+	r.mu.Unlock()
+}
+
+// begin/finish bracket a blocking call: the log line and the "current operation" change together.
+func (r *mxRun) begin(g int, what string) {
+	r.mu.Lock()
+	r.lines = append(r.lines, strconv.FormatInt(nowRel(), 10)+" call "+what)
+	r.cur[g] = what
+	r.mu.Unlock()
+}
+
+func (r *mxRun) finish(g int, what string) {
+	r.mu.Lock()
+	r.lines = append(r.lines, strconv.FormatInt(nowRel(), 10)+" ret "+what)
+	delete(r.cur, g)
+	r.mu.Unlock()
+}
+
+func (r *mxRun) keyOf(key interface{}) int {
+	switch k := key.(type) {
+	case int:
+		return k
+	case string:
+		return r.intern(k)
+	}
+	return r.intern(fmt.Sprint(key))
+}
+
+func (r *mxRun) intern(s string) int {
+	r.mu.Lock()
+	defer r.mu.Unlock()
+	return r.internLocked(s)
+}
+
+func (r *mxRun) internLocked(s string) int {
+	if n, ok := r.keyIDs[s]; ok {
+		return n
+	}
+	n := len(r.keyIDs)
+	r.keyIDs[s] = n
+	r.lines = append(r.lines, strconv.FormatInt(nowRel(), 10)+" key "+strconv.Itoa(n)+" "+q(s))
+	return n
+}
+
+// trace is installed as sessions.VerifMutexTrace. It runs on the manager goroutine of a lock table.
+func (r *mxRun) trace(ev string, key interface{}, locks int) {
+	r.mu.Lock()
+	var k int
+	switch x := key.(type) {
+	case int:
+		k = x
+	case string:
+		k = r.internLocked(x)
+	default:
+		k = r.internLocked(fmt.Sprint(key))
+	}
+	r.lines = append(r.lines, strconv.FormatInt(nowRel(), 10)+" "+ev+" "+strconv.Itoa(k)+" "+strconv.Itoa(locks))
+	id := ev + "/" + strconv.Itoa(k)
+	nth := r.matSeen[id]
+	r.matSeen[id] = nth + 1
+	stall, directed := r.mat[mxMat{ev, k, nth}]
+	random := false
+	var rnd int64
+	if !directed && ev != "purge" && r.mdelayP > 0 && r.mrng.Intn(1000) < r.mdelayP {
+		random = true
+		if r.mdelayNs > 0 {
+			rnd = 1 + r.mrng.Int63n(r.mdelayNs)
+		}
+	}
+	r.mu.Unlock()
+	// The purge events are raised under the table's itemsMutex: never stall there.
+	if ev == "purge" {
+		return
+	}
+	if directed {
+		if stall > 0 {
+			time.Sleep(time.Duration(stall))
+		} else {
+			runtime.Gosched()
+		}
+	} else if random {
+		if rnd > 0 {
+			time.Sleep(time.Duration(rnd))
+		} else {
+			runtime.Gosched()
+		}
+	}
+}
+
+func mxParseSteps(toks []string) []mxStep {
+	var steps []mxStep
+	for _, t := range toks {
+		if t == "" {
+			continue
+		}
+		st := mxStep{op: t[0]}
+		switch t[0] {
+		case 'L', 'U', 'X', 'S':
+			st.n = atoi64(t[1:])
+		case 'P', 'Y':
+			if len(t) != 1 {
+				fatal("bad step %q", t)
+			}
+		default:
+			fatal("bad step %q", t)
+		}
+		steps = append(steps, st)
+	}
+	return steps
+}
+
+type mxScript struct {
+	mode       string
+	procs      int
+	maxSize    int
+	cleanup    int64
+	stale      int64
+	tuned      bool
+	watchdog   int64
+	gids       []int
+	progs      map[int][]mxStep
+	cfg        [][2]string
+	reqs       int
+	others     int
+	stagger    int64
+	storeDelay int64
+	hasStoreD  bool
+}
+
+func runMx(script, outPath string) {
+	if d := time.Now().Unix() - faketimeEpochUnix; d >= 0 && d < 2 {
+		epoch0 = time.Unix(faketimeEpochUnix, 0)
+	} else {
+		epoch0 = time.Now()
+	}
+	f, err := os.OpenFile(outPath, os.O_TRUNC|os.O_CREATE|os.O_WRONLY, 0o644)
+	if err != nil {
+		fmt.Fprintln(os.Stderr, err)
+		os.Exit(3)
+	}
+	out = bufio.NewWriterSize(f, 1<<16)
+	data, err := os.ReadFile(script)
+	if err != nil {
+		fatal("%v", err)
+	}
+	r := &mxRun{keyIDs: map[string]int{}, cur: map[int]string{}, done: map[int]bool{}, mat: map[mxMat]int64{}, matSeen: map[string]int{}}
+	sc := &mxScript{mode: "lock", procs: 1, watchdog: 1000000, progs: map[int][]mxStep{}, reqs: 2}
+	for _, line := range strings.Split(string(data), "\n") {
+		line = strings.TrimSpace(line)
+		if line == "" || strings.HasPrefix(line, "//") {
+			continue
+		}
+		tok := strings.Fields(line)
+		need := func(n int) {
+			if len(tok) < n+1 {
+				fatal("directive %q needs %d arguments", tok[0], n)
+			}
+		}
+		switch tok[0] {
+		case "mode":
+			need(1)
+			sc.mode = tok[1]
+		case "procs":
+			need(1)
+			sc.procs = int(atoi64(tok[1]))
+		case "tuning":
+			need(3)
+			sc.maxSize, sc.cleanup, sc.stale, sc.tuned = int(atoi64(tok[1])), atoi64(tok[2]), atoi64(tok[3]), true
+		case "seed":
+			need(1)
+			r.seed = atoi64(tok[1])
+		case "yield":
+			need(1)
+			r.yieldP = int(atoi64(tok[1]))
+		case "mdelay":
+			need(2)
+			r.mdelayP, r.mdelayNs = int(atoi64(tok[1])), atoi64(tok[2])
+		case "mat":
+			need(4)
+			r.mat[mxMat{tok[1], int(atoi64(tok[2])), int(atoi64(tok[3]))}] = atoi64(tok[4])
+		case "watchdog":
+			need(1)
+			sc.watchdog = atoi64(tok[1])
+		case "g":
+			need(1)
+			id := int(atoi64(tok[1]))
+			if _, dup := sc.progs[id]; dup {
+				fatal("goroutine %d defined twice", id)
+			}
+			sc.gids = append(sc.gids, id)
+			sc.progs[id] = mxParseSteps(tok[2:])
+		case "cfg":
+			need(2)
+			sc.cfg = append(sc.cfg, [2]string{tok[1], tok[2]})
+		case "reqs":
+			need(1)
+			sc.reqs = int(atoi64(tok[1]))
+		case "others":
+			need(1)
+			sc.others = int(atoi64(tok[1]))
+		case "stagger":
+			need(1)
+			sc.stagger = atoi64(tok[1])
+		case "storedelay":
+			need(1)
+			sc.storeDelay, sc.hasStoreD = atoi64(tok[1]), true
+		default:
+			fatal("unknown mx directive %q", tok[0])
+		}
+		emit("# %s", line)
+	}
+	if sc.procs < 1 {
+		sc.procs = 1
+	}
+	runtime.GOMAXPROCS(sc.procs)
+	r.mrng = rand.New(rand.NewSource(r.seed*7919 + 17))
+	if sc.tuned {
+		sessions.VerifMutexTuning(sc.maxSize, time.Duration(sc.cleanup), time.Duration(sc.stale))
+	}
+	sessions.VerifMutexTrace = r.trace
+	switch sc.mode {
+	case "lock":
+		r.runLock(sc)
+	case "start":
+		r.runStart(sc)
+	default:
+		fatal("unknown mx mode %q", sc.mode)
+	}
+}
+
+// finishRun writes the log and the final state and leaves the process (stuck goroutines stay behind).
+func (r *mxRun) finishRun(gids []int, wd bool, size int) {
+	r.mu.Lock()
+	for _, l := range r.lines {
+		out.WriteString(l)
+		out.WriteByte('\n')
+	}
+	for _, g := range gids {
+		switch {
+		case r.done[g]:
+			emit("done %d", g)
+		case r.cur[g] != "":
+			// cur is "<op> <g> <key>" or "P <g>"
+			f := strings.Fields(r.cur[g])
+			k := "-"
+			if len(f) > 2 {
+				k = f[2]
+			}
+			emit("stuck %d %s %s", g, f[0], k)
+		default:
+			emit("late %d sleep", g)
+		}
+	}
+	emit("size %d", size)
+	w := 0
+	if wd {
+		w = 1
+	}
+	emit("end %d wd=%d", nowRel(), w)
+	out.Flush()
+	os.Exit(0)
+}
+
+// wait blocks until every goroutine has finished (then lets the manager settle for one virtual
+// nanosecond, i.e. until everything runnable has run) or the watchdog instant is reached.
+func (r *mxRun) wait(wg *sync.WaitGroup, watchdog int64) bool {
+	all := make(chan struct{})
+	go func() {
+		wg.Wait()
+		close(all)
+	}()
+	d := time.Duration(watchdog - nowRel())
+	if d < 0 {
+		d = 0
+	}
+	select {
+	case <-all:
+		time.Sleep(1)
+		return false
+	case <-time.After(d):
+		return true
+	}
+}
+
+func (r *mxRun) runLock(sc *mxScript) {
+	m := sessions.VerifNewMutexes()
+	var wg sync.WaitGroup
+	for _, id := range sc.gids {
+		wg.Add(1)
+		go func(g int, steps []mxStep) {
+			defer wg.Done()
+			rng := rand.New(rand.NewSource(r.seed*1000003 + int64(g)*101 + 1))
+			maybeYield := func() {
+				if r.yieldP > 0 && rng.Intn(1000) < r.yieldP {
+					runtime.Gosched()
+				}
+			}
+			for _, st := range steps {
+				maybeYield()
+				switch st.op {
+				case 'L':
+					w := fmt.Sprintf("L %d %d", g, st.n)
+					r.begin(g, w)
+					m.Lock(int(st.n))
+					r.finish(g, w)
+				case 'U', 'X':
+					w := fmt.Sprintf("%c %d %d", st.op, g, st.n)
+					r.begin(g, w)
+					m.Unlock(int(st.n))
+					r.finish(g, w)
+				case 'P':
+					w := fmt.Sprintf("P %d", g)
+					r.begin(g, w)
+					m.Purge()
+					r.finish(g, w)
+				case 'S':
+					time.Sleep(time.Duration(st.n))
+				case 'Y':
+					runtime.Gosched()
+				}
+				maybeYield()
+			}
+			r.mu.Lock()
+			r.done[g] = true
+			r.mu.Unlock()
+		}(id, sc.progs[id])
+	}
+	wd := r.wait(&wg, sc.watchdog)
+	size := -1
+	if !wd {
+		size = m.Len()
+	}
+	r.finishRun(sc.gids, wd, size)
+}
+
+// ---------------------------------------------------------------------------
+// start mode: concurrent sessions.Start calls on one due session id
+
+// goid returns the runtime's number of the calling goroutine (first line of its stack trace).
+func goid() int64 {
+	var buf [64]byte
+	n := runtime.Stack(buf[:], false)
+	f := strings.Fields(string(buf[:n]))
+	if len(f) < 2 {
+		return -1
+	}
+	id, _ := strconv.ParseInt(f[1], 10, 64)
+	return id
+}
+
+// mxStore wraps the harness store: it serialises the calls (the wrapped store is not made for
+// concurrent use), attributes every call to the request whose goroutine makes it, and logs it.
+type mxStore struct {
+	r     *mxRun
+	st    *store
+	smu   sync.Mutex
+	who   sync.Map // goroutine number -> request number
+	delay int64
+	stall bool
+}
+
+func (s *mxStore) req() int {
+	if v, ok := s.who.Load(goid()); ok {
+		return v.(int)
+	}
+	return -1 // a background goroutine of the package
+}
+
+func (s *mxStore) pause() {
+	if !s.stall {
+		return
+	}
+	if s.delay > 0 {
+		time.Sleep(time.Duration(s.delay))
+	} else {
+		runtime.Gosched()
+	}
+}
+
+func (s *mxStore) LoadSession(id string) (*sessions.Session, error) {
+	req := s.req()
+	s.pause()
+	s.smu.Lock()
+	x, err := s.st.LoadSession(id)
+	res := "nil"
+	if x != nil {
+		res = "ok"
+		if ref := sessions.VerifFields(x).ReferenceID; ref != "" {
+			res = "ref"
+		}
+	}
+	s.smu.Unlock()
+	s.r.logf("ev %d load-%s %d", req, res, s.r.intern(id))
+	s.pause()
+	return x, err
+}
+
+func (s *mxStore) SaveSession(id string, x *sessions.Session) error {
+	req := s.req()
+	s.pause()
+	s.smu.Lock()
+	err := s.st.SaveSession(id, x)
+	s.smu.Unlock()
+	kind := "save"
+	if ref := sessions.VerifFields(x).ReferenceID; ref != "" {
+		kind = "saveref"
+	}
+	s.r.logf("ev %d %s %d", req, kind, s.r.intern(id))
+	s.pause()
+	return err
+}
+
+func (s *mxStore) DeleteSession(id string) error {
+	req := s.req()
+	s.pause()
+	s.smu.Lock()
+	err := s.st.DeleteSession(id)
+	s.smu.Unlock()
+	s.r.logf("ev %d del %d", req, s.r.intern(id))
+	s.pause()
+	return err
+}
+
+func (s *mxStore) UserSessions(userID interface{}) ([]string, error) {
+	s.smu.Lock()
+	defer s.smu.Unlock()
+	return s.st.UserSessions(userID)
+}
+
+func (s *mxStore) LoadUser(id interface{}) (sessions.User, error) {
+	s.smu.Lock()
+	defer s.smu.Unlock()
+	return s.st.LoadUser(id)
+}
+
+// mxRand is the deterministic random source; every 16-byte draw is one minted id, attributed to the request.
+type mxRand struct {
+	s   *mxStore
+	mu  sync.Mutex
+	rng countingReader
+}
+
+func (m *mxRand) Read(p []byte) (int, error) {
+	req := m.s.req()
+	m.s.pause()
+	m.mu.Lock()
+	n := m.rng.pos / 16
+	m.rng.Read(p)
+	m.mu.Unlock()
+	if len(p) == 16 {
+		m.s.r.logf("mint %d %d", req, m.s.r.intern(genID(n)))
+	} else {
+		m.s.r.logf("rand %d %d", req, len(p))
+	}
+	m.s.pause()
+	return len(p), nil
+}
+
+func (r *mxRun) runStart(sc *mxScript) {
+	h := &sessHarness{cfg: map[string]int64{}, ck: cookieCfg{Name: "id", HTTPOnly: true}}
+	h.applyCookieCfg()
+	// defaults of this mode: every presented id is due at once, nothing expires, replaced ids stay valid
+	h.applyCfg("idExpiry", 0)
+	h.applyCfg("grace", int64(time.Hour))
+	h.applyCfg("sessionExpiry", int64(24*time.Hour))
+	h.applyCfg("cacheExpiry", int64(time.Hour))
+	h.applyCfg("maxCache", 0)
+	for _, kv := range sc.cfg {
+		h.applyCfg(kv[0], atoi64(kv[1]))
+	}
+	ms := &mxStore{r: r, st: newStore("gob"), delay: sc.storeDelay}
+	mr := &mxRand{s: ms}
+	crand.Reader = mr
+	sessions.Persistence = ms
+
+	// the sessions the requests will present: created by cookie-less requests, one after the other
+	n := 1 + sc.others
+	ids := make([]string, n)
+	for i := 0; i < n; i++ {
+		req := &http.Request{Method: "GET", Header: http.Header{}, RemoteAddr: "10.0.0.1:1"}
+		req.Header.Set("User-Agent", "ua")
+		s, err := sessions.Start(&respWriter{h: http.Header{}}, req, true)
+		if err != nil || s == nil {
+			fatal("could not create session %d: %v", i, err)
+		}
+		ids[i] = sessions.VerifFields(s).ID
+		r.logf("created %d", r.intern(ids[i]))
+		time.Sleep(4)
+	}
+	time.Sleep(1000)
+	ms.stall = sc.hasStoreD
+	t0 := nowRel()
+	r.logf("concurrent")
+
+	total := sc.reqs + sc.others
+	gids := make([]int, total)
+	var wg sync.WaitGroup
+	for i := 0; i < total; i++ {
+		gids[i] = i
+		id := ids[0]
+		if i >= sc.reqs {
+			id = ids[1+i-sc.reqs]
+		}
+		wg.Add(1)
+		go func(rq int, id string) {
+			defer wg.Done()
+			ms.who.Store(goid(), rq)
+			rng := rand.New(rand.NewSource(r.seed*1000003 + int64(rq)*101 + 1))
+			if sc.stagger > 0 {
+				time.Sleep(time.Duration(int64(rq) * sc.stagger))
+			}
+			if r.yieldP > 0 && rng.Intn(1000) < r.yieldP {
+				runtime.Gosched()
+			}
+			req := &http.Request{Method: "GET", Header: http.Header{}, RemoteAddr: "10.0.0.1:1"}
+			req.Header.Set("User-Agent", "ua")
+			req.Header.Set("Cookie", "id="+id)
+			resp := &respWriter{h: http.Header{}}
+			k := r.intern(id)
+			w := fmt.Sprintf("S %d %d", rq, k)
+			r.begin(rq, w)
+			kind, sid := "sess", "-"
+			func() {
+				defer func() {
+					if p := recover(); p != nil {
+						kind = "panic"
+					}
+				}()
+				s, err := sessions.Start(resp, req, false)
+				switch {
+				case err != nil:
+					kind = "err:" + classify(err)
+				case s == nil:
+					kind = "nil"
+				default:
+					sid = strconv.Itoa(r.intern(sessions.VerifFields(s).ID))
+				}
+			}()
+			ck := "-"
+			if c := (&http.Response{Header: resp.h}).Cookies(); len(c) > 0 {
+				ck = strconv.Itoa(r.intern(c[len(c)-1].Value))
+			}
+			r.mu.Lock()
+			r.lines = append(r.lines, fmt.Sprintf("%d ret S %d %d %s %s %s", nowRel(), rq, k, kind, sid, ck))
+			delete(r.cur, rq)
+			r.done[rq] = true
+			r.mu.Unlock()
+		}(i, id)
+	}
+	wd := r.wait(&wg, t0+sc.watchdog)
+	size := -1
+	if !wd {
+		size = sessions.VerifSessionIDMutexes().Len()
+	}
+	r.finishRun(gids, wd, size)
 }
